@@ -111,6 +111,8 @@ def plan(tier, seed):
             units.append({"kind": "pad", "H": h, "W": w, "start": s, "stop": e, "w": (e - s) * 70 * 0.35})
     for s in range(0, NRAND[tier], 50):
         units.append({"kind": "rand", "start": s, "stop": s + 50, "w": 50 * 8.0})
+    if tier == "thorough":
+        units.append({"kind": "suite", "w": 200})      # the repository's own tests with the contracts installed
     return units
 
 
